@@ -241,17 +241,23 @@ Section StmtL.
         * destruct (tok_label_wt _ _ El) as [<- _]. repeat pstepL.
         * pstepL.
     - (* KJumpLinkR *)
-      pstepL. eapply get_any_finl; [eassumption|]. intros nx st2 HW2.
+      pstepL. eapply peek_finl; [eassumption|]. intros nx l0 Hnx.
       destruct (tok_reg nx) as [r1|] eqn:Er.
-      + destruct (tok_reg_wt _ _ Er) as [<- _]. repeat pstepL.
+      + destruct (tok_reg_wt _ _ Er) as [Hw _].
+        eapply get_known_finl; [eassumption|exact Hnx|]. intros st2 HW2. rewrite <- Hw in *.
+        repeat pstepL.
       + apply lift_imm_finl. intros [imm|] Ei.
-        * destruct (tok_imm_wt _ _ Ei) as [<- _].
+        * destruct (tok_imm_wt _ _ Ei) as [Hw _].
+          eapply get_known_finl; [eassumption|exact Hnx|]. intros st2 HW2. rewrite <- Hw in *.
           eapply peek_finl; [eassumption|]. intros pk l Hpk.
           destruct (is_lparen pk) eqn:Elp.
           -- eapply get_known_finl; [eassumption|exact Hpk|]. intros ? ?.
              repeat pstepL.
           -- repeat pstepL.
-        * destruct (is_lparen nx) eqn:Elp; repeat pstepL.
+        * destruct (is_lparen nx) eqn:Elp.
+          -- eapply get_known_finl; [eassumption|exact Hnx|]. intros st2 HW2.
+             repeat pstepL.
+          -- repeat pstepL.
     - (* KLoad *)
       pstepL. eapply get_any_finl; [eassumption|]. intros nx st2 HW2.
       apply lift_imm_finl. intros [imm|] Ei.
